@@ -203,9 +203,10 @@ pub fn gen_uri(ctx: &mut Ctx) -> RefUri {
         _ => None,
     };
     let path = gen_path(ctx);
-    let query = match ctx.draw(4) {
-        0 => Some("x=1".to_string()),
-        1 => Some("a=b&c=d".to_string()),
+    let query = match ctx.draw(8) {
+        0 | 1 => Some("x=1".to_string()),
+        2 | 3 => Some("a=b&c=d".to_string()),
+        4 => Some(String::new()),
         _ => None,
     };
     RefUri { scheme: scheme.to_string(), host: host.to_string(), port, path, query }
@@ -284,7 +285,8 @@ pub fn gen_valid_req(ctx: &mut Ctx, allow_expect: bool, flow_api: bool) -> ReqCf
     // explicit Host
     if ctx.chance(1, 5) {
         let in_added = flow_api && ctx.flip();
-        let h = ("host".to_string(), format!("{}", uri.authority()).into_bytes());
+        // an explicitly supplied Host may also be empty
+        let h = ("host".to_string(), if ctx.chance(1, 6) { Vec::new() } else { format!("{}", uri.authority()).into_bytes() });
         insert_at(ctx, if in_added { &mut added } else { &mut orig }, h);
     }
     let expect = allow_expect && ctx.chance(1, 3);
